@@ -234,6 +234,94 @@ theorem expiry_le_max {s s' : State} {g : Cw4Group.State} {self : Addr} {blk : B
   subst hid
   exact ⟨_, by rw [hc']; exact AMap.get?_set_eq _ _ _, rfl, chooseExpiry_le hexp⟩
 
+/-! ## re-entrancy -/
+
+/-- Is proposal `id` stored as Executed? -/
+def isExec (c : Core) (id : Nat) : Bool :=
+  match c.proposals.get? id with
+  | some p => decide (p.status = .executed)
+  | none => false
+
+theorem isExec_later {c c' : Core} (hl : Later c c') {id : Nat} (h : isExec c id = true) : isExec c' id = true := by
+  unfold isExec at h ⊢
+  cases hp : c.proposals.get? id with
+  | none => simp [hp] at h
+  | some p =>
+    simp only [hp, decide_eq_true_eq] at h
+    obtain ⟨p', hp', _, he⟩ := hl.props id p hp
+    simp only [hp', decide_eq_true_eq]
+    cases hs' : p'.status <;> simp_all [edge]
+
+/-- Whatever is dispatched, an Executed proposal stays Executed. -/
+theorem dispatch_keeps_executed {ext : Ext} {fuel : Nat} {w w' : World} {blk : Block} {outs : List Out} {id : Nat}
+    (hi : Inv w.flex) (hx : isExec w.flex.core id = true) (h : dispatch ext fuel w blk outs = .ok w') :
+    Inv w'.flex ∧ isExec w'.flex.core id = true :=
+  dispatch_inv ext (fun w => Inv w.flex ∧ isExec w.flex.core id = true) blk
+    (fun w snd funds em s' out hq he => ⟨execute_inv hq.1 he, isExec_later (execute_later hq.1 he) hq.2⟩)
+    (fun _ _ _ _ _ hq _ => hq) (fun _ _ hq => hq) (fun _ _ hq => hq) fuel w outs w' ⟨hi, hx⟩ h
+
+theorem dispatch_nil (ext : Ext) (fuel : Nat) (w : World) (blk : Block) : dispatch ext fuel w blk [] = .ok w := by
+  cases fuel <;> rfl
+
+/-- The head of a dispatch list is dispatched first, the rest afterwards in the resulting world. -/
+theorem dispatch_cons (ext : Ext) (fuel : Nat) (w : World) (blk : Block) (o : Out) (rest : List Out) :
+    dispatch ext (fuel + 1) w blk (o :: rest) =
+      (dispatch ext (fuel + 1) w blk [o] >>= fun w1 => dispatch ext fuel w1 blk rest) := by
+  simp only [dispatch, dispatch_nil, bind_assoc]
+  congr 1
+
+/-- A dispatch list that contains a call back into `Execute` of a proposal already stored Executed fails as a
+whole (`ReplyOn::Never`: the failure of the nested call fails everything). -/
+theorem dispatch_fails_of_selfExecute (ext : Ext) (blk : Block) (id : Nat) : ∀ (fuel : Nat) (w : World) (outs : List Out),
+    Inv w.flex → isExec w.flex.core id = true → Out.msg (.selfExecute id) ∈ outs →
+    (dispatch ext fuel w blk outs).isOk = false
+  | 0, w, [], _, _, hm => by simp at hm
+  | 0, w, _ :: _, _, _, _ => by simp [dispatch, Res.isOk]
+  | fuel + 1, w, [], _, _, hm => by simp at hm
+  | fuel + 1, w, o :: rest, hi, hx, hm => by
+    rw [dispatch_cons]
+    by_cases ho : o = Out.msg (.selfExecute id)
+    · subst ho
+      have hfail : (Cw3Flex.execute w.flex w.group w.self blk w.self [] (.execute id)).isOk = false := by
+        unfold isExec at hx
+        cases hp : w.flex.core.proposals.get? id with
+        | none => simp [hp] at hx
+        | some p => simp only [hp, decide_eq_true_eq] at hx; exact execute_twice_fails hp hx
+      cases he : Cw3Flex.execute w.flex w.group w.self blk w.self [] (.execute id) with
+      | ok r => rw [he] at hfail; cases hfail
+      | error e => simp [dispatch, selfCall, he, bind, Except.bind, Res.isOk]
+    · have hm' : Out.msg (.selfExecute id) ∈ rest := by
+        rcases List.mem_cons.mp hm with h | h
+        · exact absurd h.symm ho
+        · exact h
+      cases hd : dispatch ext (fuel + 1) w blk [o] with
+      | error e => simp [bind, Except.bind, Res.isOk]
+      | ok w1 =>
+        obtain ⟨hi1, hx1⟩ := dispatch_keeps_executed hi hx hd
+        simpa [bind, Except.bind] using dispatch_fails_of_selfExecute ext blk id fuel w1 rest hi1 hx1 hm'
+
+/-- **Re-entrancy.**  A proposal among whose messages is a call back into `Execute` of the very same proposal can
+never be executed: the handler marks it Executed *before* its messages are dispatched, the nested call is
+refused, the whole transaction fails and is rolled back — the world is unchanged (the proposal stays Passed). -/
+theorem reentrant_execute_fails {ext : Ext} {fuel : Nat} {w : World} {blk : Block} {snd : Addr} {funds : List Coin} {id : Nat}
+    {p : Proposal} (hi : Inv w.flex) (hp : w.flex.core.proposals.get? id = some p) (hm : Msg.selfExecute id ∈ p.msgs) :
+    step ext fuel w ⟨blk, .flex snd funds (.execute id)⟩ = w := by
+  cases htx : tx ext fuel w blk (.flex snd funds (.execute id)) with
+  | error e => exact tx_atomic (op := ⟨blk, .flex snd funds (.execute id)⟩) htx
+  | ok w' =>
+    exfalso
+    simp only [tx, Res.bind_ok] at htx
+    obtain ⟨b, _, ⟨s', out⟩, he, hd⟩ := htx
+    obtain ⟨p1, hp1, hout⟩ := execute_out he
+    rw [hp] at hp1; cases hp1
+    obtain ⟨p2, hp2, hs', _⟩ := execute_sets_executed he
+    have hx : isExec s'.core id = true := by simp [isExec, hs']
+    have hmem : Out.msg (.selfExecute id) ∈ out := by
+      rw [hout]; exact List.mem_append_right _ (List.mem_map_of_mem hm)
+    have := dispatch_fails_of_selfExecute ext blk id fuel
+      { w with bank := b, flex := s', log := w.log ++ [eventOf w.flex snd (.execute id)] } out (execute_inv hi he) hx hmem
+    rw [hd] at this; cases this
+
 /-! ## non-vacuity -/
 
 open CwPlus.Props.C15 in
@@ -241,5 +329,15 @@ open CwPlus.Props.C15 in
 example : Reachable Cex.noExt 10 Cex.final ∧ executions Cex.final 1 = 0 ∧
     (Cex.final.flex.core.proposals.get? 1).isSome = true :=
   ⟨⟨Cex.inst, Cex.flex0, Cex.group0, Cex.token0, _, "ms", "grp", "tok", 5, Cex.ops, rfl, rfl⟩, by decide, by decide⟩
+
+/-- Non-vacuity of `reentrant_execute_fails`: a passed proposal that calls back into its own Execute; executing
+it fails and leaves the world unchanged. -/
+example :
+    let w := run CwPlus.Props.C15.Cex.noExt 10 CwPlus.Props.C15.Cex.world0
+      [⟨⟨10, 0⟩, .flex "a" [⟨5, "ucosm"⟩] (.propose "t" "d" [.selfExecute 1] none)⟩,
+       ⟨⟨10, 0⟩, .flex "b" [] (.vote 1 .yes)⟩]
+    ((w.flex.core.proposals.get? 1).map (·.status)) = some .passed ∧
+    (tx CwPlus.Props.C15.Cex.noExt 10 w ⟨10, 0⟩ (.flex "c" [] (.execute 1))).isOk = false := by
+  decide
 
 end CwPlus.Props.C05Flex
